@@ -82,7 +82,8 @@ AllOfSeqs == IF "allof" \in Features THEN {<<n>> : n \in TypeNames} \cup {<<"@b"
 \*   form: "param" (type or notation as a parameter of the directive itself), "inline" (body under the
 \*         directive), "child" (a child Body directive), with the body value b
 BodySpec(form, b) == [form |-> form, b |-> b]
-MsgBodies == ObjBodies \cup RefBodies \cup ScalarBodies \cup OtherBodies
+AllOfBodies == {Body("obj", "", ps, ao) : ps \in PropSeqs, ao \in AllOfSeqs}
+MsgBodies == ObjBodies \cup RefBodies \cup ScalarBodies \cup OtherBodies \cup (IF "allofmsg" \in Features THEN AllOfBodies ELSE {})
 FormsFor(b) == IF b.k \in {"ref", "arr", "any", "empty"} THEN {"param", "child"} ELSE {"inline", "child"}
 
 -----------------------------------------------------------------------------
@@ -113,12 +114,13 @@ DeclChoices(p) ==
   ELSE {<< >>, [i \in 1..Len(ParamsOf(p)) |-> ParamName(ParamsOf(p)[i])],
         <<ParamName(ParamsOf(p)[Len(ParamsOf(p))])>>}
 
+MethodDeclChoices(p) == IF "methoddecl" \in Features THEN DeclChoices(p) ELSE {<< >>}
 GenMethod(s, paths) ==
   {Meth(v, p, a, d, t, q, rq, rh, rs, pd) :
      v \in Pick(s, Verbs), p \in Pick(s, paths), a \in Pick(s, Annots), d \in Pick(s, Descs), t \in Pick(s, TagSeqs),
      q \in Pick(s, {"", "plain", "example"}),
      rq \in (IF Exhaustive THEN {NoSpec} ELSE {NoSpec} \cup GenSpec(s)), rh \in Pick(s, BOOLEAN),
-     rs \in GenResps(s), pd \in {<< >>}}
+     rs \in GenResps(s), pd \in {<< >>}}   \* the Path declaration is chosen where the full path is known
 
 GenInfo(s)   == {[t |-> "info", title |-> ti, version |-> ve, desc |-> de] :
                 ti \in Pick(s, {"", "My API"}), ve \in Pick(s, {"", "1.2"}), de \in Pick(s, Descs)}
@@ -126,17 +128,17 @@ GenServer(s) == {[t |-> "server", name |-> n, annot |-> a, base |-> b] :
                 n \in Pick(s, ServerNames), a \in Pick(s, Annots), b \in Pick(s, {"http://x.y/z", "https://h"})}
 GenType(s)   == {[t |-> "type", name |-> n, annot |-> a, body |-> b] :
                 n \in Pick(s, TypeNames), a \in Pick(s, Annots),
-                b \in Pick(s, TypeBodies \cup {Body("obj", "", ps, ao) : ps \in PropSeqs, ao \in AllOfSeqs})}
+                b \in Pick(s, TypeBodies \cup AllOfBodies)}
 GenEnum(s)   == {[t |-> "enum", name |-> n, annot |-> a] : n \in Pick(s, EnumNames), a \in Pick(s, Annots)}
 GenTag(s)    == {[t |-> "tag", name |-> n, annot |-> a, desc |-> d] :
                 n \in Pick(s, TagNames), a \in Pick(s, Annots), d \in Pick(s, Descs)}
 GenUrl(s)    == UNION {{[t |-> "url", path |-> p, tags |-> tg, pathdecl |-> pd, methods |-> ms] :
                  tg \in Pick(s, TagSeqs), pd \in Pick(s, DeclChoices(p)),
-                 ms \in {<<m>> : m \in GenMethod(s, {<< >>})}
+                 ms \in {<<[m EXCEPT !.pathdecl = mpd]>> : m \in GenMethod(s, {<< >>}), mpd \in Pick(s, MethodDeclChoices(p))}
                         \cup (IF Exhaustive THEN {} ELSE {<<m1, m2>> : m1 \in GenMethod(s, {<< >>}), m2 \in GenMethod(s, {<< >>})})}
                : p \in Pick(s, UrlPaths)}
-GenTopMethod(s) == {[t |-> "method", m |-> [m EXCEPT !.pathdecl = pd]] :
-                   m \in GenMethod(s, UrlPaths), pd \in {<< >>}}
+GenTopMethod(s) == UNION {{[t |-> "method", m |-> [m EXCEPT !.pathdecl = pd]] : pd \in Pick(s, MethodDeclChoices(m.path))}
+                          : m \in GenMethod(s, UrlPaths)}
 RpcMeth(name, annot, desc, tags, params, result) ==
   [name |-> name, annot |-> annot, desc |-> desc, tags |-> tags, params |-> params, result |-> result]
 RpcBodies == ObjBodies \cup RefBodies \cup {NoBody}
@@ -239,9 +241,12 @@ HttpOK(d, e) ==
 
 \* declared path parameters: prefix string -> declared, from Path directives of URL blocks and methods
 PrefixKey(p, i) == PathStr(SubSeq(p, 1, i))
+KeysDeclaredBy(path, decl) ==
+  {PrefixKey(path, i) : i \in {j \in 1..Len(path) : IsParam(path[j]) /\ ParamName(path[j]) \in Range(decl)}}
+HttpInters(d) == SelectSeq(Inters(d), LAMBDA e : e.proto = "http")
 DeclaredKeys(d) ==
-  UNION {{PrefixKey(b.path, i) : i \in {j \in 1..Len(b.path) : IsParam(b.path[j]) /\ ParamName(b.path[j]) \in Range(b.pathdecl)}}
-           : b \in Range(Blocks(d, "url"))}
+  UNION {KeysDeclaredBy(b.path, b.pathdecl) : b \in Range(Blocks(d, "url"))}
+  \cup UNION {KeysDeclaredBy(e.path, e.m.pathdecl) : e \in Range(HttpInters(d))}
 DeclKeySeq(d) ==   \* every (declaration, parameter) pair as a prefix key; duplicates = declared twice
   LET RECURSIVE F(_)
       F(i) == IF i > Len(Blocks(d, "url")) THEN << >>
@@ -249,7 +254,13 @@ DeclKeySeq(d) ==   \* every (declaration, parameter) pair as a prefix key; dupli
                        idx == SelectSeq([j \in 1..Len(b.path) |-> j],
                                         LAMBDA j : IsParam(b.path[j]) /\ ParamName(b.path[j]) \in Range(b.pathdecl))
                    IN [k \in 1..Len(idx) |-> PrefixKey(b.path, idx[k])] \o F(i + 1)
-  IN F(1)
+      RECURSIVE G(_)
+      G(i) == IF i > Len(HttpInters(d)) THEN << >>
+              ELSE LET e == HttpInters(d)[i]
+                       idx == SelectSeq([j \in 1..Len(e.path) |-> j],
+                                        LAMBDA j : IsParam(e.path[j]) /\ ParamName(e.path[j]) \in Range(e.m.pathdecl))
+                   IN [k \in 1..Len(idx) |-> PrefixKey(e.path, idx[k])] \o G(i + 1)
+  IN F(1) \o G(1)
 
 Valid(d) ==
   /\ Len(Blocks(d, "info")) <= 1
@@ -420,7 +431,7 @@ SpecKinds(kw, sp, hdr) ==
   {kw} \cup (IF sp.form = "child" THEN {"Body"} ELSE {}) \cup (IF hdr THEN {"Headers"} ELSE {})
 MethodKinds(m) ==
   {m.verb} \cup (IF m.desc # "" THEN {"Description"} ELSE {}) \cup (IF m.tags # << >> THEN {"Tags"} ELSE {})
-  \cup (IF m.query # "" THEN {"Query"} ELSE {})
+  \cup (IF m.query # "" THEN {"Query"} ELSE {}) \cup (IF m.pathdecl # << >> THEN {"Path"} ELSE {})
   \cup (IF m.req.form # "none" THEN SpecKinds("Request", m.req, m.reqHeaders) ELSE {})
   \cup UNION {SpecKinds("HTTP-response-code", m.resps[i].spec, m.resps[i].headers) : i \in 1..Len(m.resps)}
 RpcKinds(m) ==
